@@ -228,7 +228,7 @@ theorem proto_roundtrip (cfg : KCfg) (n : Neg) (p : Proto) (u num : Bool)
   cases p with
   | num d =>
     simp only [AOpt.wf, Bool.and_eq_true] at hwf
-    have hd := canonNum_digits hwf.1
+    have hd := canonNum_digits hwf.1.1
     have : (Proto.num d).uname u num = d := by
       unfold Proto.uname Proto.kname
       cases u <;> simp [upper_digits hd]
